@@ -65,6 +65,10 @@ REGRESSIONS = {
                                 ("expr", _call(24, 25, "k", ("name", 26, "t")))],
                                [("expr", _call(27, 28, "k", _c(29, 9)))])],
                              ["_continue", "_break", "normal_exit_for", "normal_exit_while", "enter_if", "exit_if", "equal", "pre_call"]),
+    # the payload of the exception hook renders the exception with repr: CPython quotes a message that has an
+    # apostrophe with double quotes (model error found by the thorough tier, seed 0)
+    "exception_repr_quotes": ([("try", 1, [("expr", ("sub", 2, _c(3, 1), _c(4, 0)))], [(("name", 5, "Exception"), "ex", [("pass",)])], [], [])],
+                              ["exception", "enter_try", "clean_exit_try", "read_subscript"]),
     "while_continue": ([("assign", 1, [("tname", "i1")], _c(2, 0)),
                         ("while", 3, ("cmp", 4, ("name", 5, "i1"), [("CLessThan", _c(6, 3))]),
                          [("assign", 7, [("tname", "i1")], ("bin", 8, "BAdd", ("name", 9, "i1"), _c(10, 1))),
